@@ -88,6 +88,7 @@ struct sent {
 	char event; char path[6];                                     /* event: 'a' add 'c' change 'r' remove; path / routed method */
 	int has_value; int value_int;                                 /* event or routed value / result payload */
 	int is_error; int err_code; int has_result;
+	int result_items;                                             /* number of members when the result is an array (get) */
 };
 static struct sent LOG[MAXLOG]; static int nlog;
 static int sends;                 /* number of send attempts */
@@ -146,7 +147,7 @@ static int scn_send(const struct peer *p, char *rendered, size_t len)
 		const cJSON *err = cJSON_GetObjectItem(m, "error");
 		const cJSON *res = cJSON_GetObjectItem(m, "result");
 		if (err) { s->is_error = 1; const cJSON *code = cJSON_GetObjectItem(err, "code"); s->err_code = code ? code->valueint : 0; if (!code) { s->has_value = 1; s->value_int = err->valueint; } }
-		if (res) { s->has_result = 1; s->has_value = 1; s->value_int = res->valueint; }
+		if (res) { s->has_result = 1; s->has_value = 1; s->value_int = res->valueint; s->result_items = cJSON_GetArraySize(res); }
 	}
 	return 0;
 }
